@@ -215,6 +215,13 @@ func isOracle(ctx context.Context) bool { return ctx.Value(oracleKey{}) != nil }
 
 const NumItems = 8
 
+// BoomShapes is the number of error shapes of the failing field: 1 plain
+// error, 2 safe error, 3 error wrapping context.Canceled of a resolver-owned
+// context, 4 error wrapping context.DeadlineExceeded, 5 safe error wrapping a
+// wrapped context.Canceled. (A BARE context.Canceled is not among them: thunder
+// treats that as "this subscription was cancelled" and ends it silently.)
+const BoomShapes = 5
+
 // NumTeams is the number of team cells, NumVCells the number of cells
 // selectable through the vcell(k:) argument.
 const (
@@ -571,12 +578,30 @@ func (w *World) buildSchema() *graphql.Schema {
 	v.FieldFunc("exp", func(ctx context.Context, v *View) int64 {
 		return w.read(ctx, v.tag, "exp").(int64)
 	}, schemabuilder.Expensive)
+	// boom fails while the cell is non-zero; the value selects the error
+	// shape (BoomShapes). Shapes 3-5 are what a resolver returns when a
+	// downstream call was cancelled / timed out on a context the RESOLVER
+	// owns: the error wraps context.Canceled / DeadlineExceeded although the
+	// subscription's own context is alive.
 	v.FieldFunc("boom", func(ctx context.Context, v *View) (int64, error) {
 		switch b := w.read(ctx, v.tag, "boom").(int64); b {
 		case 0:
 			return 0, nil
 		case 2:
 			return 0, graphql.NewSafeError("safe boom")
+		case 3:
+			sub, cancel := context.WithCancel(context.Background())
+			cancel()
+			return 0, fmt.Errorf("downstream call: %w", sub.Err())
+		case 4:
+			sub, cancel := context.WithDeadline(context.Background(), time.Unix(0, 0))
+			defer cancel()
+			<-sub.Done()
+			return 0, fmt.Errorf("downstream call: %w", sub.Err())
+		case 5:
+			sub, cancel := context.WithCancel(context.Background())
+			cancel()
+			return 0, graphql.WrapAsSafeError(fmt.Errorf("pool: %w", sub.Err()), "backend unavailable")
 		default:
 			return 0, fmt.Errorf("boom %d", b)
 		}
